@@ -3,6 +3,7 @@ package props
 import (
 	"context"
 	"errors"
+	"fmt"
 	"strings"
 	"testing"
 	"time"
@@ -170,6 +171,10 @@ func runC18(c E1Case) (out core.Outcome) {
 				_, err := r.s.StepTask(t2)
 				e1cur = nil
 				r.s.Watchdog = old
+				if err == nil && t2.Blocked() && td2.call.End == 0 {
+					// the scheduler found it waiting inside the library (a lock, a channel) and went on without it
+					err = fmt.Errorf("task %s is blocked inside the library", t2.Name)
+				}
 				if err != nil {
 					out.Violation = core.Viol("C18/waiting-writer-not-cancellable", "%s was waiting for queue space behind another waiting writer; after its context was cancelled it did not return within 2 s: %v", td2.call.Op.Op, err)
 					return
